@@ -93,7 +93,7 @@ func buildEvidence(spec *Spec, tier string, seed int, results []*EntryResult, ws
 		"solver_s":            stats.Time.Seconds(),
 		"load_ssa_s":          loadT.Seconds(),
 		"explore_s":           exploreT.Seconds(),
-		"solver":              "z3 4.8.12 (z3 -in, incremental push/pop, no set-logic)",
+		"solver":              solverDesc,
 		"stubs":               spec.Stubs,
 		"known_findings_reported": nknown,
 		"inconclusive_models": inconclusive,
@@ -113,6 +113,8 @@ func buildEvidence(spec *Spec, tier string, seed int, results []*EntryResult, ws
 	}
 	return ev
 }
+
+var solverDesc = "z3"
 
 func maxInt(a, b int) int {
 	if a > b {
